@@ -205,7 +205,31 @@ func hostileStream(ch *Choices) ([]byte, string) {
 func hostileStreamN(ch *Choices) ([]byte, string, int) {
 	var b bytes.Buffer
 	f := &foreignBuilder{ch: ch, Features: map[string]int{}}
-	switch ch.Intn(8, "hostile.kind") {
+	switch ch.Intn(10, "hostile.kind") {
+	case 8, 9:
+		// a LONG fixed-length list: more elements really present than any up-front allocation cap, with a
+		// declared length that is honest or inflated far beyond what the input holds
+		n := ch.Range(4090, 9000, "longlist.n")
+		declared := n
+		switch ch.Intn(3, "longlist.inflate") {
+		case 1:
+			declared = 1 << uint(ch.Range(17, 23, "longlist.exp"))
+		case 2:
+			declared = 1 << uint(ch.Range(24, 30, "longlist.exp"))
+		}
+		typed := ch.Intn(2, "longlist.typed") == 1
+		if typed {
+			b.WriteByte('V')
+			b.WriteByte(6)
+			b.WriteString("[int32")
+		} else {
+			b.WriteByte(0x58)
+		}
+		b.Write([]byte{'I', byte(declared >> 24), byte(declared >> 16), byte(declared >> 8), byte(declared)})
+		for i := 0; i < n; i++ {
+			b.WriteByte(byte(0x90 + i%40))
+		}
+		return b.Bytes(), fmt.Sprintf("fixed-length list (typed=%v) declaring %d elements with %d really present", typed, declared, n), 1
 	case 6, 7:
 		// containers that contain themselves and references of the wrong type: a Bag whose untyped list
 		// field holds (a reference to) itself, and whose other fields are references to drawn ordinals
